@@ -2102,6 +2102,80 @@ func TestVerif_C17(t *testing.T) {
 	})
 	rep.Require(rep.Counter("concurrent_sessions") >= int64(nConc*2), "too few concurrent sessions completed")
 
+	// events that share an id (nothing in front of these middlewares checks ids): the allow/deny
+	// verdict belongs to the message, not to its id - within a session and across sessions
+	nSame := vk.N(150, 3000)
+	vk.ParallelW(8, nSame, func(i int) {
+		r := vk.RNG("C17/same-id", i)
+		filter := c17MatcherFilter(r)
+		deny := r.IntN(2) == 0
+		matcher := mocrelay.NewReqFilterMatcher(filter)
+		var mw mocrelay.Middleware
+		if deny {
+			mw = mocrelay.Middleware(mocrelay.NewRecvEventDenyFilterMiddleware(matcher))
+		} else {
+			mw = mocrelay.Middleware(mocrelay.NewRecvEventAllowFilterMiddleware(matcher))
+		}
+		var down mocrelay.Handler = mocrelay.HandlerFunc(func(ctx context.Context, send chan<- mocrelay.ServerMsg, recv <-chan mocrelay.ClientMsg) error {
+			for {
+				select {
+				case <-ctx.Done():
+					return ctx.Err()
+				case m, ok := <-recv:
+					if !ok {
+						return mocrelay.ErrRecvClosed
+					}
+					if em, is := m.(*mocrelay.ClientEventMsg); is {
+						select {
+						case send <- mocrelay.NewServerOKMsg(em.Event.ID, true, "", "reached the handler: "+em.Event.Content):
+						case <-ctx.Done():
+							return ctx.Err()
+						}
+					}
+				}
+			}
+		})
+		h := mw(down)
+		ids := []string{vk.HexOf(fmt.Sprintf("c17 shared id %d a", i)), vk.HexOf(fmt.Sprintf("c17 shared id %d b", i))}
+		n := 0
+		for sess := 0; sess < 2; sess++ {
+			s := vk.StartSession(context.Background(), h, 0)
+			for k := 0; k < 8; k++ {
+				n++
+				g := &c17Gen{r: r, cfg: &c17Cfg{Now: time.Now().Unix()}, tag: fmt.Sprintf("same%d", i)}
+				ev, _ := g.event()
+				ev.ID = vk.Pick(r, ids)
+				ev.Content = fmt.Sprintf("same-id %d/%d", i, n)
+				want := vk.RefMatch(filter, ev) != deny
+				if !s.Put(&mocrelay.ClientEventMsg{Event: ev}) {
+					rep.Inconclusive("C17: same-id phase: an EVENT was not taken")
+					s.Stop()
+					return
+				}
+				m, ok := s.Get()
+				okm, is := m.(*mocrelay.ServerOKMsg)
+				rep.Eval(1)
+				if !ok || !is || okm.EventID != ev.ID {
+					rep.Violation("same-id/no-answer", "an EVENT got neither the handler's OK nor a rejection: "+vk.JSON(m), map[string]any{"filter": filter, "deny": deny, "event": ev})
+					s.Stop()
+					return
+				}
+				reached := okm.Accepted && strings.HasPrefix(okm.Message(), "reached the handler: "+ev.Content)
+				if reached != want {
+					rep.Violation(map[bool]string{true: "same-id/forwarded/should-reject", false: "same-id/rejected/should-forward"}[reached],
+						fmt.Sprintf("message %d of a history that uses two event ids over and over: the %s filter's verdict on this message is %v, but forwarded=%v (answer %s)", n, map[bool]string{true: "deny", false: "allow"}[deny], want, reached, vk.JSON(m)),
+						map[string]any{"filter": filter, "deny": deny, "event": ev, "session": sess})
+					s.Stop()
+					return
+				}
+				rep.Nontrivial(fmt.Sprintf("same-id/%v/%v/%d", deny, want, k))
+			}
+			s.Stop()
+		}
+		rep.Count("same_id_histories", 1)
+	})
+	rep.Require(rep.Counter("same_id_histories") >= int64(nSame*9/10), "too few same-id histories completed")
+
 	<-agedDone
 	rep.Set("aged_min_age_of_a_probed_middleware_ms", time.Duration(c17AgedMin.Load()).Milliseconds())
 	rep.Require(rep.Counter("aged_sessions") >= 72, "not all 36 aged configurations were probed in both modes")
